@@ -113,7 +113,10 @@ var c02Images = []c02Img{
 // c02Views: the same kinds of picture handed over as views whose bounds do not start at (0,0)
 // ("@" + one of C19's placements): what the file declares must be the picture's size, not where
 // it was stored. (C02 only; the other checks that borrow c02Images build their own storage forms.)
-var c02Views = []c02Img{{17, 17, "noise", "anoise@sub35"}, {33, 7, "c4", "opaque@negorigin"}, {16, 16, "noise", "binary@genericSub"}}
+var c02Views = []c02Img{{17, 17, "noise", "anoise@sub35"}, {33, 7, "c4", "opaque@negorigin"}, {16, 16, "noise", "binary@genericSub"},
+	// 64 macroblocks of which exactly one is skipped (the second of two adjacent flat blocks): the skip probability sits in its top range
+	// (251 of 255), where a writer may decide not to code skip flags at all
+	{128, 128, "noiseflat2", "opaque"}}
 
 type c02Case struct {
 	Img  c02Img
